@@ -1,5 +1,344 @@
 package main
 
+import (
+	"fmt"
+	"regexp"
+	"strings"
+)
+
+// C13 Headers and uncles are accepted iff they satisfy the consensus rules.
+//
+// Decided structurally: every accepting path of the header/uncle verifiers carries each acceptance literal of the
+// statement, with operator and constant by value; protocol variables are never reassigned; difficulty dispatch
+// clamps and resets with the scheduled constants.
+
 func init() {
-	register("C13", []string{"./consensus/aquahash", "./params", "./core", "./core/types"}, func(c *Ctx) {})
+	register("C13", []string{"./..."}, runC13)
 }
+
+const (
+	reHdr = `Header#0`
+	rePar = `Header#1`
+)
+
+func runC13(c *Ctx) {
+	c.Explanation = "Static must-guard analysis (path-sensitive dataflow over go/ssa) of the aquahash header and uncle verifiers: on every path that returns acceptance, each rule of the property statement is present as a normalised branch literal with the right operator and constant; the protocol variables feeding those literals are initialised to the specified values and are never assigned elsewhere in the module; difficulty selection clamps to the fork minimum and resets at fork blocks. Decides the presence and shape of every acceptance guard for all inputs; does not evaluate the numeric difficulty formula or scheduling of the batch verifier."
+	c.NotDecided = []string{"numeric value of the difficulty adjustment formula", "batch-vs-sequential agreement under all worker schedules (only the shared verifier and in-order emission shape are checked)"}
+	c.Assumptions = []string{"header fields are not mutated between a guard and the accepting return (terms are access paths)", "ModeFullFake (PowMode==4) test engine paths are exempt"}
+	c.Trusted = append(c.Trusted, "acceptance-rule table taken from the property statement (C13) and params constants by value")
+
+	c.Rule("C13-R1", "on every accepting path of (*Aquahash).verifyHeader each header acceptance literal holds", func() {
+		fn := c.Fn("consensus/aquahash:(*Aquahash).verifyHeader")
+		c.MustOnAccept("C13-R1", fn, -1, false, []LitReq{
+			{Name: "extra data at most 32 bytes", Re: `^len\(Header#0\.Extra\) <= 32$`},
+			{Name: "non-uncle: time not more than allowedFutureBlockTime ahead of the clock", Unless: `^bool#0$`,
+				Re: `^Header#0\.Time <= big\.NewInt\(time\.Now\(\)\.Add\(aquahash\.allowedFutureBlockTime\)\.Unix\(\)\)$`},
+			{Name: "time strictly later than parent", Re: `^Header#0\.Time > Header#1\.Time$`},
+			{Name: "difficulty equals CalcDifficulty(time, parent, grandparent)", Re: `^Header#0\.Difficulty == Aquahash#0\.CalcDifficulty\(ChainReader#0, Header#0\.Time\.Uint64\(\), Header#1, Header#2\)$`},
+			{Name: "gas limit <= 2^63-1", Re: `^Header#0\.GasLimit <= 9223372036854775807$`},
+			{Name: "gas used <= gas limit", Re: `^Header#0\.GasUsed <= Header#0\.GasLimit$`},
+			{Name: "gas limit moved by less than parent/1024 (non-negative delta)", Unless: `^\(Header#1\.GasLimit - Header#0\.GasLimit\) < 0$`,
+				Re: `^\(Header#1\.GasLimit - Header#0\.GasLimit\) < \(Header#1\.GasLimit / 1024\)$`},
+			{Name: "gas limit moved by less than parent/1024 (negative delta)", Unless: `^\(Header#1\.GasLimit - Header#0\.GasLimit\) >= 0$`,
+				Re: `^\(\(Header#1\.GasLimit - Header#0\.GasLimit\) \* -1\) < \(Header#1\.GasLimit / 1024\)$`},
+			{Name: "gas limit >= 5000", Re: `^Header#0\.GasLimit >= 5000$`},
+			{Name: "number is parent's plus one", Re: `^new\(Int\)\.Sub\(Header#0\.Number, Header#1\.Number\) == big\.NewInt\(1\)$`},
+			{Name: "seal requested => VerifySeal succeeded", Unless: `^!bool#1$`, Re: `^Aquahash#0\.VerifySeal\(ChainReader#0, Header#0\) == nil$`},
+		})
+		c.ConstIs("C13-R1", "consensus/aquahash:allowedFutureBlockTime", "15000000000")
+		c.GlobalNeverReassigned("C13-R1", "consensus/aquahash:allowedFutureBlockTime")
+		c.ConstIs("C13-R1", "params:MaximumExtraDataSize", "32")
+		c.ConstIs("C13-R1", "params:GasLimitBoundDivisor", "1024")
+		c.ConstIs("C13-R1", "params:MinGasLimit", "5000")
+	})
+	c.Min("C13-R1", 16)
+
+	c.Rule("C13-R1b", "every public header verifier funnels into verifyHeader and propagates its verdict", func() {
+		vh := c.Fn("consensus/aquahash:(*Aquahash).VerifyHeader")
+		c.MustOnAccept("C13-R1b", vh, -1, false, []LitReq{
+			{Name: "accepts only what verifyHeader accepts (or a known header / full-fake engine)",
+				Unless: `^(Aquahash#0\.config\.PowMode == 4|ChainReader#0\.GetHeader\(Header#0\.Hash\(\), Header#0\.Number\.Uint64\(\)\) != nil)$`,
+				Re:     `^Aquahash#0\.verifyHeader\(ChainReader#0, Header#0, ChainReader#0\.GetHeader\(Header#0\.ParentHash, \(Header#0\.Number\.Uint64\(\) - 1\)\), .*, false, bool#0\) == nil$`},
+			{Name: "parent must be known", Unless: `^(Aquahash#0\.config\.PowMode == 4|ChainReader#0\.GetHeader\(Header#0\.Hash\(\), Header#0\.Number\.Uint64\(\)\) != nil)$`,
+				Re: `^ChainReader#0\.GetHeader\(Header#0\.ParentHash, \(Header#0\.Number\.Uint64\(\) - 1\)\) != nil$`},
+		})
+		w := c.Fn("consensus/aquahash:(*Aquahash).verifyHeaderWorker")
+		c.MustOnAccept("C13-R1b", w, -1, false, []LitReq{
+			{Name: "batch worker accepts only what verifyHeader accepts (or a known header)",
+				Unless: `^ChainReader#0\.GetHeader\(\[\]Header#0\[int#0\]\.Hash\(\), \[\]Header#0\[int#0\]\.Number\.Uint64\(\)\) != nil$`,
+				Re:     `^Aquahash#0\.verifyHeader\(ChainReader#0, \[\]Header#0\[int#0\], .*, false, \[\]bool#0\[int#0\]\) == nil$`},
+		})
+	})
+	c.Min("C13-R1b", 3)
+
+	c.Rule("C13-R2", "uncle acceptance literals on every accepting path / loop iteration of VerifyUncles", func() {
+		fn := c.Fn("consensus/aquahash:(*Aquahash).VerifyUncles")
+		fake := `^Aquahash#0\.config\.PowMode == 4$`
+		c.MustOnAccept("C13-R2", fn, -1, false, []LitReq{
+			{Name: "at most maxUncles uncles", Unless: fake, Re: `^len\(Block#0\.Uncles\(\)\) <= aquahash\.maxUncles$`},
+			{Name: "at most maxUnclesHF5 uncles from HF5", Unless: fake,
+				Re: `^(len\(Block#0\.Uncles\(\)\) <= aquahash\.maxUnclesHF5|!ChainReader#0\.Config\(\)\.IsHF\(5, Block#0\.Number\(\)\))$`},
+		})
+		c.ConstIs("C13-R2", "consensus/aquahash:maxUncles", "2")
+		c.ConstIs("C13-R2", "consensus/aquahash:maxUnclesHF5", "1")
+		c.GlobalNeverReassigned("C13-R2", "consensus/aquahash:maxUncles")
+		c.GlobalNeverReassigned("C13-R2", "consensus/aquahash:maxUnclesHF5")
+		// per-uncle rules: at the end of every iteration that continues the loop
+		un := `Block#0\.Uncles\(\)\[\(phi:rangeindex \+ 1\)\]`
+		hash := un + `\.SetVersion\(ChainReader#0\.Config\(\)\.GetBlockVersion\(` + un + `\.Number\)\)`
+		legacy := `^phi:number <= 15000$` // historical main-net exceptions below block 15000 are consensus, frozen
+		c.MustLoopBack("C13-R2", fn, `^Aquahash\.verifyHeader$`, []LitReq{
+			{Name: "uncle not seen before (unique)", Unless: legacy, Re: `^!mapset\.NewSet\(nil\)\.Contains\(.*\)$`},
+			{Name: "uncle is not an ancestor", Re: `^make\(map\[Hash\]Header\)\[` + hash + `\] == nil$`},
+			{Name: "uncle's parent is a recent ancestor", Unless: legacy, Re: `^make\(map\[Hash\]Header\)\[` + un + `\.ParentHash\] != nil$`},
+			{Name: "uncle is not a sibling of the block", Unless: legacy, Re: `^` + un + `\.ParentHash != Block#0\.ParentHash\(\)$`},
+			{Name: "uncle header individually valid (verifyHeader, uncle=true, seal=true)",
+				Re: `^Aquahash#0\.verifyHeader\(ChainReader#0, ` + un + `, .*, true, true\) == nil$`},
+		})
+		// ancestor window: the ancestor loop is bounded by 7
+		c.MustOnAccept("C13-R2", fn, -1, false, []LitReq{
+			{Name: "ancestor window is 7 generations", Unless: fake, Re: `^(phi:i >= 7|ChainReader#0\.GetBlock\(phi:parent, phi:number\) == nil)$`},
+		})
+	})
+	c.Min("C13-R2", 12)
+
+	c.Rule("C13-R3", "difficulty dispatch: general path clamps to the fork minimum; fork blocks reset to scheduled constants; constants by value", func() {
+		for spec, want := range map[string]string{
+			"params:MinimumDifficultyGenesis": "99999999", "params:MinimumDifficultyHF1": "100001792",
+			"params:MinimumDifficultyHF3": "30959185800", "params:MinimumDifficultyHF5": "46039386",
+			"params:MinimumDifficultyHF5Testnet": "46039386",
+			"params:DifficultyBoundDivisor": "2048", "params:DifficultyBoundDivisorHF5": "16",
+			"params:DifficultyBoundDivisorHF6": "128", "params:DifficultyBoundDivisorHF8": "1024",
+			"params:DurationLimit": "240", "params:DurationLimitHF6": "180",
+		} {
+			c.ConstIs("C13-R3", spec, want)
+			c.GlobalNeverReassigned("C13-R3", spec)
+		}
+		c13Difficulty(c)
+	})
+	c.Min("C13-R3", 24)
+
+	c.Rule("C13-R4", "batch verification uses the same verifier and emits results in index order (shape only)", func() {
+		fn := c.Fn("consensus/aquahash:(*Aquahash).VerifyHeaders")
+		n := 0
+		for _, cl := range fn.AnonFuncs {
+			f := c.Facts(cl)
+			if len(f.Calls(mustRe(`^Aquahash\.verifyHeaderWorker$`))) > 0 {
+				n++
+			}
+		}
+		c.Ob("C13-R4", "VerifyHeaders workers call verifyHeaderWorker", c.FnPos(fn), n >= 1, "")
+	})
+}
+
+
+// c13Difficulty checks the dispatch structure of calcDifficultyHFX against the documented fork schedule.
+func c13Difficulty(c *Ctx) {
+	fn := c.Fn("consensus/aquahash:calcDifficultyHFX")
+	next := `new(Int).Add(Header#0.Number, aquahash.big1)`
+	isHF := func(s *pstate, k int) int { // 1 true, -1 false, 0 unknown
+		l := fmt.Sprintf("ChainConfig#0.IsHF(%d, %s)", k, next)
+		if s.lits[l] {
+			return 1
+		}
+		if s.lits["!"+l] {
+			return -1
+		}
+		return 0
+	}
+	atBlock := func(s *pstate, k int) int {
+		l := fmt.Sprintf("%s == ChainConfig#0.GetHF(%d)", next, k)
+		n := fmt.Sprintf("%s != ChainConfig#0.GetHF(%d)", next, k)
+		if s.lits[l] {
+			return 1
+		}
+		if s.lits[n] {
+			return -1
+		}
+		return 0
+	}
+	and := func(a, b int) int {
+		if a == -1 || b == -1 {
+			return -1
+		}
+		if a == 1 && b == 1 {
+			return 1
+		}
+		return 0
+	}
+	// (a) selection tables for min / limit / adjust
+	sel := func(name string, order []int, vals map[int]string, def string) {
+		f := c.FactsFocus(fn, `^!?ChainConfig#0\.IsHF\(`, true, name)
+		phi, rows := f.PhiTable(name)
+		if phi == nil || len(rows) == 0 {
+			c.Ob("C13-R3", "calcDifficultyHFX selects "+name+" by fork", c.FnPos(fn), false, "no phi named "+name+" found")
+			return
+		}
+		seen := map[string]bool{}
+		for _, r := range rows {
+			want := ""
+			for _, k := range order {
+				v := isHF(r.State, k)
+				if v == 1 {
+					want = vals[k]
+					break
+				}
+				if v == 0 {
+					want = "?"
+					break
+				}
+			}
+			if want == "" {
+				want = def
+			}
+			ok := want != "?" && r.Val == want
+			seen[want] = true
+			c.Ob("C13-R3", fmt.Sprintf("calcDifficultyHFX %s under {%s}", name, strings.Join(guardLits(r.State), ", ")), c.Position(phi.Pos()), ok,
+				fmt.Sprintf("selected %s, fork schedule prescribes %s", r.Val, want))
+		}
+		for _, k := range order {
+			if !seen[vals[k]] {
+				c.Ob("C13-R3", fmt.Sprintf("calcDifficultyHFX %s has a case for HF%d", name, k), c.FnPos(fn), false, "no path selects "+vals[k])
+			}
+		}
+	}
+	sel("min", []int{5, 3, 1}, map[int]string{5: "params.MinimumDifficultyHF5", 3: "params.MinimumDifficultyHF3", 1: "params.MinimumDifficultyHF1"}, "params.MinimumDifficultyGenesis")
+	sel("limit", []int{6}, map[int]string{6: "params.DurationLimitHF6"}, "params.DurationLimit")
+	div := func(d string) string { return "new(Int)~2.Div(Header#0.Difficulty, params." + d + ")" }
+	_ = div
+	{
+		f := c.FactsFocus(fn, `^!?ChainConfig#0\.IsHF\(`, true, "adjust")
+		phi, rows := f.PhiTable("adjust")
+		if phi == nil {
+			c.Ob("C13-R3", "calcDifficultyHFX selects adjust by fork", c.FnPos(fn), false, "no phi named adjust")
+		}
+		for _, r := range rows {
+			want := "DifficultyBoundDivisor"
+			for _, k := range []int{8, 6, 5} {
+				v := isHF(r.State, k)
+				if v == 1 {
+					want = map[int]string{8: "DifficultyBoundDivisorHF8", 6: "DifficultyBoundDivisorHF6", 5: "DifficultyBoundDivisorHF5"}[k]
+					break
+				}
+				if v == 0 {
+					want = "?"
+					break
+				}
+			}
+			re := regexp.MustCompile(`^new\(Int\)(~\d+)?\.Div\(Header#0\.Difficulty, params\.` + want + `\)$`)
+			c.Ob("C13-R3", fmt.Sprintf("calcDifficultyHFX adjust under {%s}", strings.Join(guardLits(r.State), ", ")), c.Position(phi.Pos()), re.MatchString(r.Val),
+				fmt.Sprintf("selected %s, fork schedule prescribes parent.Difficulty / params.%s", r.Val, want))
+		}
+	}
+	// (b) clamp on the general path
+	{
+		f := c.FactsFocus(fn, `^(called:)?new\(Int\)(~\d+)?\.Set\(Header#0\.Difficulty\)(\.Set\(| >= | < )`, true)
+		n := 0
+		for _, rs := range f.AllReturns() {
+			res := f.tr.term(rs.State, rs.Ret.Results[0], 0)
+			if !regexp.MustCompile(`^new\(Int\)(~\d+)?\.Set\(Header#0\.Difficulty\)$`).MatchString(res) {
+				continue
+			}
+			n++
+			_, ge := hasLit(rs.State, regexp.MustCompile(`^new\(Int\)(~\d+)?\.Set\(Header#0\.Difficulty\) >= phi:min$`))
+			_, set := hasLit(rs.State, regexp.MustCompile(`^called:new\(Int\)(~\d+)?\.Set\(Header#0\.Difficulty\)\.Set\(phi:min\)$`))
+			c.Ob("C13-R3", "calcDifficultyHFX general path result is clamped to min", c.Position(rs.Ret.Pos()), ge || set,
+				"path literals: "+strings.Join(rs.State.Lits(), "; "))
+		}
+		if n == 0 {
+			c.Ob("C13-R3", "calcDifficultyHFX general path result is clamped to min", c.FnPos(fn), false, "no general-path return found")
+		}
+	}
+	// (c) dispatch decision list (documented schedule): first matching row decides the result
+	type row struct {
+		name string
+		cond func(s *pstate) int
+		want string // regexp on the result term
+	}
+	general := `^new\(Int\)(~\d+)?\.Set\(Header#0\.Difficulty\)$`
+	rowsSpec := []row{
+		{"fake-difficulty test mode", func(s *pstate) int {
+			if s.lits["aquahash.fakedifficultymode"] {
+				return 1
+			}
+			if s.lits["!aquahash.fakedifficultymode"] {
+				return -1
+			}
+			return 0
+		}, `^params\.MinimumDifficultyHF5$`},
+		{"HF10: grandparent algorithm", func(s *pstate) int { return isHF(s, 10) }, `^aquahash\.calcDifficultyGrandparent\(uint64#0, Header#0, Header#1, ChainConfig#0, ChainConfig#0\.ChainId\.Uint64\(\)\)$`},
+		{"HF8 fork block: reset", func(s *pstate) int { return and(isHF(s, 8), atBlock(s, 8)) }, `^params\.MinimumDifficultyHF5$`},
+		{"HF6 fork block: general", func(s *pstate) int { return and(isHF(s, 6), atBlock(s, 6)) }, general},
+		{"HF7 fork block: general", func(s *pstate) int { return and(isHF(s, 7), atBlock(s, 7)) }, general},
+		{"HF5 fork block: reset", func(s *pstate) int { return and(isHF(s, 5), atBlock(s, 5)) }, `^params\.MinimumDifficultyHF5$`},
+		{"HF3 fork block: reset", func(s *pstate) int { return and(isHF(s, 3), atBlock(s, 3)) }, `^params\.MinimumDifficultyHF3$`},
+		{"HF2 and later: general", func(s *pstate) int { return isHF(s, 2) }, general},
+		{"HF1 fork block: reset", func(s *pstate) int { return and(isHF(s, 1), atBlock(s, 1)) }, `^params\.MinimumDifficultyHF1$`},
+		{"HF1: modified homestead", func(s *pstate) int { return isHF(s, 1) }, `^aquahash\.calcDifficultyHF1\(uint64#0, Header#0, ChainConfig#0\.ChainId\.Uint64\(\)\)$`},
+		{"before HF1: starting algorithm", func(s *pstate) int { return 1 }, `^aquahash\.calcDifficultyStarting\(uint64#0, Header#0, ChainConfig#0\.ChainId\.Uint64\(\)\)$`},
+	}
+	f := c.FactsFocus(fn, `IsHF\(|GetHF\(|fakedifficultymode`, true)
+	hit := map[string]bool{}
+	for _, rs := range f.AllReturns() {
+		res := f.tr.term(rs.State, rs.Ret.Results[0], 0)
+		decided := false
+		for _, r := range rowsSpec {
+			v := r.cond(rs.State)
+			if v == -1 {
+				continue
+			}
+			decided = true
+			if v == 0 {
+				c.Ob("C13-R3", "calcDifficultyHFX dispatch: return "+res, c.Position(rs.Ret.Pos()), false,
+					fmt.Sprintf("cannot decide row %q for this path; literals: %s", r.name, strings.Join(guardLits(rs.State), "; ")))
+				break
+			}
+			hit[r.name] = true
+			c.Ob("C13-R3", "calcDifficultyHFX dispatch row "+r.name, c.Position(rs.Ret.Pos()), regexp.MustCompile(r.want).MatchString(res),
+				fmt.Sprintf("returns %s; schedule prescribes /%s/; path: %s", res, r.want, strings.Join(guardLits(rs.State), "; ")))
+			break
+		}
+		_ = decided
+	}
+	for _, r := range rowsSpec {
+		if !hit[r.name] {
+			c.Ob("C13-R3", "calcDifficultyHFX dispatch row "+r.name+" exists", c.FnPos(fn), false, "no return path matches this row of the fork schedule")
+		}
+	}
+	// (d) the three older algorithms clamp with BigMax on main-net
+	main := `^uint64#1 == params\.MainnetChainConfig\.ChainId\.Uint64\(\)$`
+	for _, t := range []struct{ fn, min string }{
+		{"calcDifficultyStarting", "MinimumDifficultyGenesis"}, {"calcDifficultyHF1", "MinimumDifficultyHF1"},
+	} {
+		g := c.Fn("consensus/aquahash:" + t.fn)
+		fg := c.Facts(g)
+		n := 0
+		for _, rs := range fg.AllReturns() {
+			if _, ok := hasLit(rs.State, regexp.MustCompile(main)); !ok {
+				continue
+			}
+			n++
+			res := fg.tr.term(rs.State, rs.Ret.Results[0], 0)
+			ok := regexp.MustCompile(`^math\.BigMax\((new\(Int\)(~\d+)?, params\.`+t.min+`|params\.`+t.min+`, new\(Int\)(~\d+)?)\)$`).MatchString(res)
+			c.Ob("C13-R3", t.fn+" main-net result is max(x, params."+t.min+")", c.Position(rs.Ret.Pos()), ok, "returns "+res)
+		}
+		if n == 0 {
+			c.Ob("C13-R3", t.fn+" main-net result is max(x, params."+t.min+")", c.FnPos(g), false, "no main-net return path found")
+		}
+	}
+	g := c.Fn("consensus/aquahash:calcDifficultyGrandparent")
+	fg := c.Facts(g)
+	for _, rs := range fg.AllReturns() {
+		res := fg.tr.term(rs.State, rs.Ret.Results[0], 0)
+		if rs.State.lits["Header#1 == nil"] {
+			continue // no grandparent: parent difficulty is kept
+		}
+		want := "MinimumDifficultyHF5Testnet"
+		if rs.State.lits["uint64#1 == params.MainnetChainConfig.ChainId.Uint64()"] {
+			want = "MinimumDifficultyHF5"
+		}
+		ok := regexp.MustCompile(`^math\.BigMax\((new\(Int\)(~\d+)?, params\.`+want+`|params\.`+want+`, new\(Int\)(~\d+)?)\)$`).MatchString(res)
+		c.Ob("C13-R3", "calcDifficultyGrandparent result is max(x, params."+want+")", c.Position(rs.Ret.Pos()), ok, "returns "+res)
+	}
+}
+
